@@ -217,6 +217,11 @@ func replayWitness(repo, hdir string, names []string, wpath string, v *Violation
 		if res == "assert "+v.ID {
 			return "reproduced", res
 		}
+		// the real code panics on the witness (the engine's stub hid the panic behind a
+		// failed assertion): a run-time panic of the library is a violation in its own right
+		if strings.HasPrefix(res, "panic runtime error") || res == "panic (process)" {
+			return "reproduced", "native run panics instead: " + res
+		}
 	case "panic":
 		if strings.HasPrefix(res, "panic") {
 			return "reproduced", res
@@ -229,8 +234,44 @@ func replayWitness(repo, hdir string, names []string, wpath string, v *Violation
 		if res == "hang" {
 			return "reproduced", res
 		}
+		// the native scheduler's watchdog fired: confirmed if a goroutine is parked at a
+		// library position the engine named as blocked
+		if i := strings.Index(res, "; blocked: "); i >= 0 && v.Kind == "deadlock" {
+			for _, site := range blockedSitesOf(v.Detail) {
+				if strings.Contains(res[i:], "@"+site+" ") {
+					return "reproduced", "native run deadlocks: goroutine parked at " + site
+				}
+				// a send parked for good in the same library file (the schedule may let
+				// another of the symmetric senders lose the race natively)
+				file := site[:strings.Index(site, ":")]
+				if strings.Contains(v.Detail, "chan send") || strings.Contains(v.Detail, "send on full channel") {
+					if strings.Contains(res[i:], "[chan send]@"+file+":") {
+						return "reproduced", "native run deadlocks: goroutine parked in a channel send in " + file + " (" + strings.TrimSpace(res[i+11:]) + ")"
+					}
+				}
+			}
+		}
 	}
 	return "not-reproduced", res
+}
+
+// blockedSitesOf extracts the "file.go:line" positions from an engine deadlock description.
+func blockedSitesOf(detail string) []string {
+	var out []string
+	for _, f := range strings.FieldsFunc(detail, func(r rune) bool { return r == ' ' || r == '(' || r == ')' || r == '@' }) {
+		if i := strings.Index(f, ".go:"); i > 0 {
+			ok := true
+			for _, c := range f[i+4:] {
+				if c < '0' || c > '9' {
+					ok = false
+				}
+			}
+			if ok && len(f) > i+4 {
+				out = append(out, f)
+			}
+		}
+	}
+	return out
 }
 
 func tail(s string, n int) string {
